@@ -279,6 +279,21 @@ def c18_special(idx):
     return F.Prog(name, lines)
 
 
+# headerless files that BEGIN with comments (the state 'no header seen yet' lasts through their leading comment block)
+C19_SPECIAL = [
+    ("h1.c", "/* " + "x" * 80 + " */\n\nint\tmain(void)\n{\n\treturn (0);\n}\n"),
+    ("h2.c", "// " + "x" * 80 + "\n// second\n\nint\tmain(void)\n{\n\treturn (0);\n}\n"),
+    ("h3.c", "/*\n** " + "x" * 80 + "\n*/\n/* short */\n\nint\tmain(void)\n{\n\treturn 0;\n}\n"),
+    ("h4.h", "/* about */\n/* " + "y" * 79 + " */\n#ifndef H4_H\n# define H4_H\n\nint\tfoo(void);\n\n#endif\n"),
+    ("h5.c", "/* a */ /* b */\n\n\nint\tmain(void)\n{\n\treturn (0);\n}\n"),
+]
+
+
+def c19_special(idx):
+    name, text = C19_SPECIAL[idx]
+    return F.Prog(name, [F.Line([l], "raw") for l in text.split("\n")[:-1]])
+
+
 def c17_micro(idx):
     import re
     name, tmpl = C17_MICRO[idx]
@@ -337,6 +352,9 @@ def chunks(prop, tier, n):
         else:
             out.append(dict(prop=prop, maxi=mi, seed=mi, kind=kind, rot=0))
     if prop == "C19":
+        for m in range(len(C19_SPECIAL)):
+            out.append(dict(prop=prop, special19=m, seed=m, kind="c", mode="header", sub=len(out)))
+            out.append(dict(prop=prop, special19=m, seed=m, kind="c", mode="header", sub=len(out), gap=True))
         # bases with exactly FOUR functions: the appended function reaches the limit of five exactly
         for sd in four_function_seeds(3 if tier == "quick" else 12):
             out.append(dict(prop=prop, seed=sd, kind="c", mode="append", sub=len(out), gen_tier="thorough"))
@@ -513,14 +531,20 @@ def run_chunk(chunk, ctx):
                 col.add_witness(dict(prop=prop, name=prog.name, a=ref[res["rk"]][1], b=text), dict(same=True, key=res["key"]))
     else:
         mode = chunk["mode"]
+        if "special19" in chunk:
+            prog = c19_special(chunk["special19"])
         base = strip_header(prog) if mode == "header" else prog
         slots = base.slots()
         ids = {s.id for s in slots if s.kind in IDKINDS or s.kind in ("dec", "hex", "oct")}
         # variant program
         var = base.clone()
         if mode == "header":
-            var.lines = F.header_lines(prog.name) + var.lines
-            at, by = 1, 11
+            if chunk.get("gap"):
+                var.lines = F.header_lines(prog.name) + [F.Line([""], "blank")] + var.lines
+                at, by = 1, 12
+            else:
+                var.lines = F.header_lines(prog.name) + var.lines
+                at, by = 1, 11
         elif mode == "comment":
             # every top-level boundary after the 42 header: before an include / define / global / prototype / type /
             # function / blank line (not inside function bodies or type blocks)
@@ -652,7 +676,7 @@ def check_c19(mode, ka, kb, at, by, nbase, alone=None, na=0):
             return (f"C19:header:count-base:{len(nhdr)}", f"headerless file carries {len(nhdr)} INVALID_HEADER diagnostics")
         if any(e[0] == "INVALID_HEADER" for e in eb):
             return ("C19:header:still-invalid", "file with the standard header still gets INVALID_HEADER")
-        exp = shifted([e for e in ea if e[0] != "INVALID_HEADER"], 1, 11)
+        exp = shifted([e for e in ea if e[0] != "INVALID_HEADER"], 1, by)
     elif mode == "comment":
         exp = shifted(ea, at, by)
     else:
